@@ -25,6 +25,7 @@ structure RestF (s s' : St) : Prop where
   fcode : s'.functionsCode = s.functionsCode
   ifs : s'.ifs = s.ifs
   icnt : s'.ifCounter = s.ifCounter
+  env : EnvExt s s'
 
 /-- `Adv` for structural lines (brackets, construct labels and jumps): the same bookkeeping, no claim about the lines -/
 structure AdvS (s s' : St) (new : List BLine) (n : Nat) : Prop where
@@ -37,18 +38,19 @@ structure AdvS (s s' : St) (new : List BLine) (n : Nat) : Prop where
   ifs : s'.ifs = s.ifs
   fcnt : s'.forCounter = s.forCounter
   icnt : s'.ifCounter = s.ifCounter
+  env : EnvExt s s'
 
 theorem Adv.toS {s s' : St} {new : List BLine} {n : Nat} (h : Adv s s' new n) : AdvS s s' new n :=
-  ⟨h.code, h.cnt, h.funcs, h.fcode, h.fors, h.ends, h.ifs, h.fcnt, h.icnt⟩
+  ⟨h.code, h.cnt, h.funcs, h.fcode, h.fors, h.ends, h.ifs, h.fcnt, h.icnt, h.env⟩
 
 theorem AdvS.trans {s s1 s2 : St} {a b : List BLine} {m n : Nat} (h1 : AdvS s s1 a m) (h2 : AdvS s1 s2 b n) :
     AdvS s s2 (b ++ a) (m + n) :=
   ⟨by rw [h2.code, h1.code, List.append_assoc], by rw [h2.cnt, h1.cnt, Nat.add_assoc], by rw [h2.funcs, h1.funcs],
    by rw [h2.fcode, h1.fcode], by rw [h2.fors, h1.fors], by rw [h2.ends, h1.ends], by rw [h2.ifs, h1.ifs],
-   by rw [h2.fcnt, h1.fcnt], by rw [h2.icnt, h1.icnt]⟩
+   by rw [h2.fcnt, h1.fcnt], by rw [h2.icnt, h1.icnt], h1.env.trans h2.env⟩
 
 theorem AdvS.toT {s s' : St} {new : List BLine} {n : Nat} (h : AdvS s s' new n) : AdvT s s' new n :=
-  ⟨h.code, h.cnt, h.funcs, h.fcode, h.fors, h.ends, h.ifs, by rw [h.fcnt]; exact Nat.le_refl _, by rw [h.icnt]; exact Nat.le_refl _⟩
+  ⟨h.code, h.cnt, h.funcs, h.fcode, h.fors, h.ends, h.ifs, by rw [h.fcnt]; exact Nat.le_refl _, by rw [h.icnt]; exact Nat.le_refl _, h.env⟩
 
 theorem AdvS.funcs_nil {s s' : St} {a : List BLine} {n : Nat} (h : AdvS s s' a n) (h0 : s.funcs = []) : s'.funcs = [] := by
   rw [h.funcs]; exact h0
@@ -59,7 +61,7 @@ theorem forStartOp_ok {s s' : St} {u : Unit} (h0 : s.funcs = []) (h : forStartOp
       s'.forCounter = s.forCounter + 1 ∧ RestF s s' := by
   simp [forStartOp, bind, Tr.modify, Tr.get, currentFor, addLine, h0, currentForVar] at h
   rw [← h]
-  exact ⟨rfl, rfl, rfl, rfl, ⟨rfl, h0.symm, rfl, rfl, rfl⟩⟩
+  exact ⟨rfl, rfl, rfl, rfl, ⟨rfl, h0.symm, rfl, rfl, rfl, EnvExt.of_eq rfl rfl rfl rfl rfl rfl rfl rfl rfl rfl⟩⟩
 
 theorem currentForVar_eq {s : St} {n : Nat} (h : s.forCounter = n + 1) : currentForVar s = flagName n := by
   simp [currentForVar, h, flagName]
@@ -68,19 +70,19 @@ theorem forIncrementStartOp_ok {s s' : St} {u : Unit} {n : Nat} (h0 : s.funcs = 
     (h : forIncrementStartOp s = .ok (u, s')) : AdvS s s' [.opn ("if defined " ++ flagName n ++ " (")] 0 := by
   simp [forIncrementStartOp, bind, Tr.get, addLine, h0, currentForVar_eq hn] at h
   rw [← h]
-  exact ⟨rfl, rfl, h0.symm, rfl, rfl, rfl, rfl, rfl, rfl⟩
+  exact ⟨rfl, rfl, h0.symm, rfl, rfl, rfl, rfl, rfl, rfl, EnvExt.of_eq rfl rfl rfl rfl rfl rfl rfl rfl rfl rfl⟩
 
 theorem forIncrementEndOp_ok {s s' : St} {u : Unit} {n : Nat} (h0 : s.funcs = []) (hn : s.forCounter = n + 1)
     (h : forIncrementEndOp s = .ok (u, s')) : AdvS s s' [.set (flagName n) "1", .close] 0 := by
   simp [forIncrementEndOp, bind, Tr.get, addLine, h0, currentForVar_eq hn] at h
   rw [← h]
-  exact ⟨rfl, rfl, h0.symm, rfl, rfl, rfl, rfl, rfl, rfl⟩
+  exact ⟨rfl, rfl, h0.symm, rfl, rfl, rfl, rfl, rfl, rfl, EnvExt.of_eq rfl rfl rfl rfl rfl rfl rfl rfl rfl rfl⟩
 
 theorem forCondition_ok {c : String} {s s' : St} {u : Unit} (h0 : s.funcs = []) (h : addLine (.opn (ifStartLine c)) s = .ok (u, s')) :
     AdvS s s' [.opn (ifStartLine c)] 0 := by
   simp [addLine, h0] at h
   rw [← h]
-  exact ⟨rfl, rfl, h0.symm, rfl, rfl, rfl, rfl, rfl, rfl⟩
+  exact ⟨rfl, rfl, h0.symm, rfl, rfl, rfl, rfl, rfl, rfl, EnvExt.of_eq rfl rfl rfl rfl rfl rfl rfl rfl rfl rfl⟩
 
 theorem forEndOp_ok {l e : String} {r r' : List String} {s s' : St} {u : Unit} (h0 : s.funcs = []) (hf : s.fors = l :: r)
     (he : s.endLabels = e :: r') (h : forEndOp s = .ok (u, s')) :
@@ -88,19 +90,19 @@ theorem forEndOp_ok {l e : String} {r r' : List String} {s s' : St} {u : Unit} (
       s'.forCounter = s.forCounter ∧ RestF s s' := by
   simp [forEndOp, currentFor, hf, bind, addLine, h0, Tr.get, he, forEndTail, Tr.modify] at h
   rw [← h]
-  exact ⟨rfl, by simp [hf], rfl, rfl, ⟨rfl, h0.symm, rfl, rfl, rfl⟩⟩
+  exact ⟨rfl, by simp [hf], rfl, rfl, ⟨rfl, h0.symm, rfl, rfl, rfl, EnvExt.of_eq rfl rfl rfl rfl rfl rfl rfl rfl rfl rfl⟩⟩
 
 theorem brkOp_ok {e : String} {r' : List String} {s s' : St} {u : Unit} (h0 : s.funcs = []) (he : s.endLabels = e :: r')
     (h : brkOp s = .ok (u, s')) : AdvS s s' [.cgoto e] 0 := by
   simp [brkOp, bind, Tr.get, he, brkTail, addLine, h0] at h
   rw [← h]
-  exact ⟨rfl, rfl, h0.symm, rfl, rfl, he.symm, rfl, rfl, rfl⟩
+  exact ⟨rfl, rfl, h0.symm, rfl, rfl, he.symm, rfl, rfl, rfl, EnvExt.of_eq rfl rfl rfl rfl rfl rfl rfl rfl rfl rfl⟩
 
 theorem contOp_ok {l : String} {r : List String} {s s' : St} {u : Unit} (h0 : s.funcs = []) (hf : s.fors = l :: r)
     (h : contOp s = .ok (u, s')) : AdvS s s' [.cgoto l] 0 := by
   simp [contOp, currentFor, hf, bind, addLine, h0] at h
   rw [← h]
-  exact ⟨rfl, rfl, h0.symm, rfl, hf.symm, rfl, rfl, rfl, rfl⟩
+  exact ⟨rfl, rfl, h0.symm, rfl, hf.symm, rfl, rfl, rfl, rfl, EnvExt.of_eq rfl rfl rfl rfl rfl rfl rfl rfl rfl rfl⟩
 
 /-! ### the flag of a loop -/
 
@@ -460,7 +462,8 @@ theorem stmtL_sem (ctx : LCtx) (st : Stmt) (hf : Src.fragStmt st = true) (hn : s
     have f3 : s3.forCounter = s.forCounter := by rw [r3.fcnt, f2]
     refine ⟨(newc.reverse ++ newe.reverse).map BCmd.simple ++ [BCmd.chain (ifLabel s2.ifCounter) tc bc tree et],
       nc + ne + nb + nt + nl, ?_, ?_, ?_⟩
-    · refine ⟨?_, ?_, ?_, ?_, ?_, ?_, ?_, ?_, ?_⟩
+    · refine ⟨?_, ?_, ?_, ?_, ?_, ?_, ?_, ?_, ?_,
+        ad1.env.trans (ad2.env.trans (r3.env.trans (adb.env.trans (adt.env.trans (adl.env.trans r7.env)))))⟩
       · rw [c7, adl.code, adt.code, adb.code, c3, ad2.code, ad1.code]
         simp [flats_append, flats_simples, flats_simples_reverse, flats, flat, List.reverse_append]
       · rw [r7.cnt, adl.cnt, adt.cnt, adb.cnt, r3.cnt, ad2.cnt, ad1.cnt]; omega
@@ -551,7 +554,8 @@ theorem stmtL_sem (ctx : LCtx) (st : Stmt) (hf : Src.fragStmt st = true) (hn : s
     refine ⟨ci ++ [BCmd.simple (.set (flagName s1.forCounter) ""),
         BCmd.loop s1.forCounter (P ++ newc.reverse.map BCmd.simple) tc bc], ni + np + nc + nb, ?_,
         by simp [wfBs_append, wfBs, wfB, plainB, wfi, wfP, wfb, wfBs_simples_reverse' newc ad4.plain], ?_⟩
-    · refine ⟨?_, ?_, ?_, ?_, ?_, ?_, ?_, ?_, ?_⟩
+    · refine ⟨?_, ?_, ?_, ?_, ?_, ?_, ?_, ?_, ?_,
+        adi.env.trans (r2.env.trans (adp.env.trans (ad4.env.trans (ad5.env.trans (adb.env.trans r7.env)))))⟩
       · rw [c7, adb.code, ad5.code, ad4.code, adp.code, c2, adi.code]
         simp [flats_append, flats_simples, flats_simples_reverse, flats, flat, List.reverse_append]
       · rw [r7.cnt, adb.cnt, ad5.cnt, ad4.cnt, adp.cnt, r2.cnt, adi.cnt]; omega
@@ -705,7 +709,7 @@ theorem elseL_sem (ctx : LCtx) (els : List Stmt) (hf : Src.fragStmts els = true)
     obtain ⟨cs, n, ad, wfc, sim⟩ := hseq
     refine ⟨some cs, n, ?_, by simpa [wfElse] using wfc, ?_⟩
     · rw [e4]
-      refine ⟨?_, ?_, ?_, ?_, ?_, ?_, ?_, ?_, ?_⟩
+      refine ⟨?_, ?_, ?_, ?_, ?_, ?_, ?_, ?_, ?_, r1.env.trans ad.env⟩
       · rw [ad.code, c1]; simp [flatElse, List.reverse_append]
       · rw [ad.cnt, r1.cnt]
       · rw [ad.funcs, r1.funcs]
@@ -762,7 +766,8 @@ theorem elifsL_sem (ctx : LCtx) (elifs : List (Expr × List Stmt)) (hf : Src.fra
       have hr := elifsL_sem ctx rest hf.2 hn.2 cs s3 s' l r h03 hk3 i3 (by simpa using hlen) h4
       obtain ⟨tree, nt, adt, wft, simt⟩ := hr
       refine ⟨(t, bc) :: tree, nb + nt, ?_, by simp [wfElifs, wfb, wft], ?_⟩
-      · refine ⟨?_, ?_, ?_, ?_, ?_, ?_, ?_, ?_, ?_⟩
+      · refine ⟨?_, ?_, ?_, ?_, ?_, ?_, ?_, ?_, ?_,
+          r1.env.trans (adb.env.trans (by have := adt.env; rw [e3] at this; exact this))⟩
         · rw [adt.code, e3, adb.code, c1]; simp [flatElifs, List.reverse_append]
         · rw [adt.cnt, e3, adb.cnt, r1.cnt]; omega
         · rw [adt.funcs, e3, adb.funcs, r1.funcs]
